@@ -94,6 +94,7 @@ def Ca.apply (s : Ca) : Ev → Option Ca
     | none => none
     | some s' => s'.withChild ch fun c => { c with usedKeys := set c.usedKeys ki .revoked }
   | .childUpdatedResources ch res => s.withChild ch fun c => { c with res := res }
+  | .childUpdatedId ch => s.withChild ch fun c => c
   | .childMapping ch n m => s.withChild ch fun c => { c with rcnMap := set c.rcnMap n m }
   | .childRemoved ch => some { s with children := del s.children ch }
   | .childSuspended ch => s.withChild ch fun c => { c with active := false }
